@@ -262,20 +262,21 @@ ADDENDA = {
 
 # fourth round
 ADDENDA2 = {
+    "C08": " Added: D7.child (the level compared with the limit is the level of the child that is appended), D5.saturation also checks which sets the saturation test examines (tensors where a class has them).",
     "C12": " Added: D5.warm (the lazy build of the wavelet matrix in const methods is guarded by the size test alone: the documented warm-up contract).",
     "C03": " Added: D8.params (shared with C02-D5).",
     "C05": " Added: D8.wavelet (value / derivative pairing of the wavelet rule: piecewise closed forms for order 1, chain rule over the uninterpreted table interpolation for order 3 with a table of justified shortcuts, interpolate<1> == d/dx interpolate<0>).",
-    "C10": " Added: D8.kinds (as C04-D13), D9.extent (in-place corrections of output buffers run over the extent the sizing overload gives the buffer).",
+    "C10": " Added: D8.kinds (as C04-D13), D10.canonical (points that went through formCanonicalPoints are never handed to another API method), D9.extent (in-place corrections of output buffers run over the extent the sizing overload gives the buffer).",
     "C02": " Added: D8.independent (linear scale and conformal correction of integrate()/getQuadratureWeights() never depend on each other, shared with C10-D6), D9.workset (the set behind getGlobalPolynomialSpace is the set the weights are computed for, shared with C03-D4).",
     "C01": " D4.tree also covers dropping the needed points of a grid without loaded points (F86). Added: D11.ancestors (known finding F92); D10.restart (dependence analysis of the GMRES restart loop: every cycle starts from the residual of the current iterate, the iterate changes only through the Krylov reconstruction, F88).",
-    "C04": " D6.tree as in C01 (F86). Added: D11.restart (as C01-D10, F88: the transposed solve behind the weights), D12.vandermonde (entries of the Kronecker 1-D matrices are values of the basis evaluate() uses), D13.kinds (kind inference: nodal weights pair with nodal values, basis integrals with hierarchical coefficients in every integrate()).",
+    "C04": " D6.tree as in C01 (F86). Added: D11.restart (as C01-D10, F88: the transposed solve behind the weights), D12.vandermonde (entries of the Kronecker 1-D matrices are values of the basis evaluate() uses), D14.diffweights (product rule of the Sequence / Global / Fourier differentiation weights folded symbolically), D15.canonical (canonical coordinates are consumed by the grid object only, shared with C10-D10), D13.kinds (kind inference: nodal weights pair with nodal values, basis integrals with hierarchical coefficients in every integrate()).",
     "C06": " Added: D6 orders precision(17) before every floating point field; D12.nodes (Sequence node cache covers every converted index set); D13.perdim (per-dimension members rebuilt only from a non-empty set, F85).",
-    "C07": " Added: D9.norm for the Sequence grid (NaN-seeded running maximum, F74); D10.alloutputs (monotone accumulation over outputs); D11.limits (C08-D1.store shared).",
-    "C09": " Added: D10.keep (registrations with delivered samples survive a request for candidates, F81); D11.nodes; D12.restrict (waiting samples of a copy keep the copied output range, shared with C11); D2 also asks that waiting samples are subtracted from the candidates (F91); D4.relations now evaluates the relations getSubGraph walks (F24 fixed).",
+    "C07": " Added: D9.norm for the Sequence grid (NaN-seeded running maximum, F74); D10.alloutputs (monotone accumulation over outputs); D11.limits (C08-D1.store shared), D12.child (C08-D7.child shared).",
+    "C09": " Added: D10.keep (registrations with delivered samples survive a request for candidates, F81); D11.nodes; D13.scan (flag-building scans of the waiting samples have no early exit), D12.restrict (waiting samples of a copy keep the copied output range, shared with C11); D2 also asks that waiting samples are subtracted from the candidates (F91); D4.relations now evaluates the relations getSubGraph walks (F24 fixed).",
     "C11": " Added: D9.moved (never-null owning members re-seated by user-provided moves, F78); D8 also decides the first output (F79).",
     "C14": " Added: D15.family, D16.output (propositional check that output == -1 cannot reach a Global routine), D17.rawlen, D18.nopoints, D19.modes, D20.tablebound (level + 1 <= getNumLevels() on the side that keeps using a table, symbolic normal form), D21.cwrap (C entry points that wrap a read catch both exception types, F93) (F72-F80).",
     "C15": " Added: the snapshot test is reached in every iteration (per-iteration must-pass); D6.forward (the sampling form is forwarded unchanged between instantiations).",
-    "C16": " Added: D10.init (scalar members of every constructor, library-wide), D11.readonly, D12.coefflayout (symbolic layout pairs of writer and setter), D13.xfile, D14.limits, D15.rejected (F64-F66, F82-F84).",
+    "C16": " Added: D10.init (scalar members of every constructor, library-wide), D11.readonly, D12.coefflayout (symbolic layout pairs of writer and setter), D13.xfile, D14.limits, D15.rejected (F64-F66, F82-F84; extended to every row read of a rejected option matrix, F94), D16.contour ('curved' is decided from the contour of the depth type), D17.refine (family dispatch of -refine equals the API's family guard, F95).",
     "C17": " Added: D9.header (header counts are vector sizes), D10.reopen (streams that outlive an attempt are closed on every way out; positive control in instantiate/controls.cpp), D5 also asks for the parked samples (known finding F67).",
     "C18": " Added: D7.extent (job output buffers get an exact size on every path, and the size given by resize() is symbolically num_outputs times the number of points of this batch).",
     "C19": " Added: D4.nan (the line search ends only on a comparison that holds, F68). Added: D5.reentrant (no static / thread-local working storage; positive control).",
